@@ -176,6 +176,11 @@ def cases(tier, seed=0):
   for m in ("fs_basic", "fs_three", "fs_multirange"):
     for tgt in ("setfl_fs", "DL_POLY_EAM_fs"):
       cs.append(Case("potable %s %s" % (m, tgt), EP.potable_case, model_name=m, target=tgt, nr=2 if tier == "quick" else 3, nrho=2))
+  from checks import eam_api as _ea
+  cs += _ea.surplus_cases('setfl_fs', tier)
+  cs += _ea.surplus_cases('DL_POLY_EAM_fs', tier)
+  cs += _ea.after_failure_cases('setfl_fs', tier)
+  cs += _ea.after_failure_cases('DL_POLY_EAM_fs', tier)
   return cs
 
 
